@@ -35,6 +35,8 @@ from harness.c11 import Batch, expect_flags
 ELEMENTS = ["C", "N", "O", "H", "F", "S", "Cl", "P", "Si", "Br"]
 BTYPES = ["Single", "Double", "Aromatic", "Triple"]
 NEWDATA = "Single/Unknown/1.0"
+FRESH: list = []     # optimize_rotation joins to be repeated in fresh interpreters
+
 AXES = [(1.0, 0.0, 0.0), (-1.0, 0.0, 0.0), (0.0, 1.0, 0.0), (0.0, -1.0, 0.0), (0.0, 0.0, 1.0), (0.0, 0.0, -1.0)]
 SPEC_KINDS = {"shape": "C12:join-wrong-atoms", "partA": "C12:join-distorts-first-fragment", "rigidB": "C12:join-distorts-second-fragment",
               "anchor": "C12:join-distorts-first-fragment", "len": "C12:join-wrong-bond-length", "dir": "C12:join-wrong-bond-direction"}
@@ -272,6 +274,26 @@ def join_case(ctx, B, ml, fa, fb, args, variants, sample=False):
         dmax = float(np.abs(coords - np.array(res2.coords)).max()) if coords.shape == np.array(res2.coords).shape else float("nan")
         ctx.violation("C12:join-depends-on-hidden-rng-state",
                       f"two identical join calls under different numpy RNG states differ by {dmax:.3g} Å ({args['pose']} attachment vectors)", tag)
+    # ---------- hidden state carried from one call to the next ----------
+    if args["opt"]:
+        nrem = nB - 1
+        big = gen_fragment(rng, "Hbx", nmin=nrem + 1, nmax=nrem + 6)
+        small = gen_fragment(rng, "Hsx", nmin=1, nmax=max(1, nrem - 2))
+        try:
+            for other in (big, small) if rng.chance(1, 2) else (small, big):
+                ml.Molecule.join(A, build(ml, other), i1, other["ap"][0], optimize_rotation=True)
+            np.random.seed(seed1)
+            res3 = ml.Molecule.join(A, Bm, i1, i2, **kw)
+            if not np.array_equal(coords, np.array(res3.coords), equal_nan=True):
+                d3 = float(np.nanmax(np.abs(coords - np.array(res3.coords)))) if coords.shape == np.array(res3.coords).shape else float("nan")
+                ctx.violation("C12:join-depends-on-earlier-calls",
+                              f"the same join gives coordinates {d3:.3g} Å apart after unrelated joins of a larger ({len(big['labels']) - 1} atoms) and a "
+                              f"smaller ({len(small['labels']) - 1} atoms) fragment were made in between (B has {nrem} atoms, optimize_rotation=True)",
+                              dict(tag, in_between=[big, small]))
+            ctx.count("join.repeated-after-unrelated-joins")
+        except Exception as e:  # noqa: BLE001
+            ctx.violation("C12:join-raises", f"join raised {type(e).__name__}: {e} when repeated after unrelated joins", tag)
+        FRESH.append({"A": fa, "B": fb, "args": args, "seed": None, "hex": None})
     # ---------- sources untouched ----------
     if snapshot(A) != snapA or snapshot(Bm) != snapB:
         ctx.violation("C12:join-mutates-source", "A or B changed during join", tag)
@@ -510,6 +532,31 @@ def expected_product_indexed(core_j, aps, subs_j):
     return f"ok atoms={','.join(toks)} bonds={','.join(sorted(bonds))} charge={q} mult={m}"
 
 
+def multigraph_of(m):
+    """a molecule up to atom order: multiset of atom tokens, multiset of bonds as (unordered pair of atom tokens, payload), charge, mult
+    (labels may repeat when one substituent is used several times)"""
+    from collections import Counter
+    nodes = Counter(atom_tok(a) for a in m.atoms)
+    edges = Counter((tuple(sorted((atom_tok(b.a1), atom_tok(b.a2)))), bond_tok(b)) for b in m.bonds)
+    return nodes, edges, int(m.charge), int(m.mult)
+
+
+def expected_multigraph(core_j, aps, subs_j):
+    from collections import Counter
+    nodes, edges = Counter(), Counter()
+    tok = lambda f, i: f"{f['elements'][i]}/{f['labels'][i]}/Regular"
+    for f in [core_j] + list(subs_j):
+        for i in range(len(f["labels"])):
+            if i not in f["ap"]:
+                nodes[tok(f, i)] += 1
+        for a, b, t in f["edges"]:
+            if a not in f["ap"] and b not in f["ap"]:
+                edges[(tuple(sorted((tok(f, a), tok(f, b)))), f"{t}/Unknown/1.0")] += 1
+    for ap, sj in zip(aps, subs_j):
+        edges[(tuple(sorted((tok(core_j, neighbour_of(core_j, ap)), tok(sj, neighbour_of(sj, sj["ap"][0]))))), NEWDATA)] += 1
+    return nodes, edges, core_j["charge"] + sum(sj["charge"] for sj in subs_j), core_j["mult"] + sum(sj["mult"] - 1 for sj in subs_j)
+
+
 def combos_for_mode(mode, subs, k):
     from itertools import permutations, combinations, combinations_with_replacement
     if mode == "same":
@@ -528,7 +575,9 @@ def main_case(ctx, B, ml, cb, variants, mode, label_form, case_no, sample=False)
     import contextlib
     import io
     rng = ctx.rng
-    k = rng.range(1, 2) if mode != "combns" else rng.range(1, 2)
+    k = rng.range(1, 2)
+    if label_form == "labels-any-order":
+        k = rng.range(2, 3)            # the order of the labels only matters with at least two attachment points
     ncores = rng.range(2, 3)
     nsubs = rng.range(max(2, k), 3)
     # attachment-point labels: a shared label on every attachment point, or one label per attachment point (same set in every core)
@@ -554,9 +603,16 @@ def main_case(ctx, B, ml, cb, variants, mode, label_form, case_no, sample=False)
         argv_labels = ["AP"]
         per_core_aps = [sorted(c["ap"]) for c in cores]          # yield_atoms_by_label: atom order
     else:
-        order = rng.shuffle(list(range(k)))                     # labels given in any order
+        # labels given in any order: make sure that for at least one core the labelled attachment points are then NOT in
+        # atom-table order (and, when possible, for another core they are)
+        for _ in range(40):
+            order = rng.shuffle(list(range(k)))
+            per_core_aps = [[c["labels"].index(f"AP{j}") for j in order] for c in cores]
+            asc = [all(a < b for a, b in zip(p_, p_[1:])) for p_ in per_core_aps]
+            if not all(asc):
+                break
         argv_labels = [f"AP{j}" for j in order]
-        per_core_aps = [[c["labels"].index(f"AP{j}") for j in order] for c in cores]
+        ctx.count("main.labels-any-order.cores-with-non-ascending-indices", sum(1 for a in asc if not a))
     work = ctx.scratch / f"combine{case_no}"
     work.mkdir(exist_ok=True)
     cpath, spath, opath = work / "cores.mlib", work / "subs.mlib", work / "out.mlib"
@@ -612,8 +668,7 @@ def main_case(ctx, B, ml, cb, variants, mode, label_form, case_no, sample=False)
         if prod is None:
             continue
         impl = canon(prod)
-        ref = expected_product_indexed(c, aps, combo)
-        if impl != ref:
+        if multigraph_of(prod) != expected_multigraph(c, aps, combo):     # up to atom order: harmless re-orderings are not failures
             left = [a.label for a in prod.atoms if "AttachmentPoint" in atom_tok(a)]
             ctx.violation("C12:combine-main-wrong-product",
                           f"product {name}: not core ∪ substituents joined at the core's own attachment indices {aps}"
@@ -632,6 +687,63 @@ def main_case(ctx, B, ml, cb, variants, mode, label_form, case_no, sample=False)
     if sample:
         ctx.sample({"op": "molli combine", "argv": argv[2:], "cores": [c["name"] for c in cores], "attachment_indices_per_core": per_core_aps,
                     "products": len(products)})
+
+
+def fresh_process_check(ctx, ml, limit):
+    """every recorded optimize_rotation join is repeated (i) by this process once more, now that many other joins have been
+    made, (ii) in a fresh interpreter in REVERSED order, (iii) the first one alone in its own interpreter; all must be
+    bit-identical."""
+    import subprocess
+    from harness import common
+    cases = FRESH[:limit]
+    if not cases:
+        return
+
+    def here(r):
+        A, Bm = build(ml, r["A"]), build(ml, r["B"])
+        a = r["args"]
+        kw = {k: a[k] for k in ("dist", "charge", "mult") if a.get(k) is not None}
+        np.random.seed(12345)
+        res = ml.Molecule.join(A, Bm, r["A"]["ap"][0], r["B"]["ap"][0], optimize_rotation=a["opt"], **kw)
+        return np.ascontiguousarray(np.array(res.coords, dtype=float)).tobytes().hex()
+
+    mine = []
+    for r in cases:
+        try:
+            mine.append(here(r))
+        except Exception as e:  # noqa: BLE001
+            mine.append(f"err:{type(e).__name__}")
+
+    def child(sub):
+        fin, fout = ctx.scratch / "fresh_in.json", ctx.scratch / "fresh_out.json"
+        fin.write_text(json.dumps([{"A": r["A"], "B": r["B"], "args": r["args"]} for r in sub]))
+        if fout.exists():
+            fout.unlink()
+        try:
+            p = subprocess.run([common.repo_python(), "-m", "harness.c12_child", str(fin), str(fout)], cwd=str(common.VERIF),
+                               capture_output=True, text=True, timeout=600)
+        except subprocess.TimeoutExpired:
+            return None
+        if p.returncode != 0 or not fout.exists():
+            ctx.notes.append("fresh-process reference could not run: " + (p.stderr or "")[-300:])
+            return None
+        return json.loads(fout.read_text())
+
+    rev = child(list(reversed(cases)))
+    if rev is not None:
+        rev = list(reversed(rev))
+        for r, m, c in zip(cases, mine, rev):
+            ctx.case(["fresh", r["A"], r["B"], r["args"]], nontrivial=True)
+            if m != c:
+                ctx.violation("C12:join-depends-on-earlier-calls",
+                              "the join made in this process (after many other joins) differs bit-wise from the same join made in a fresh "
+                              "interpreter after a different history of joins", {"op": "join", "A": r["A"], "B": r["B"], "args": r["args"]})
+        ctx.count("join.compared-with-fresh-process", len(cases))
+    alone = child(cases[:1])
+    if alone is not None and alone[0] != mine[0]:
+        ctx.violation("C12:join-depends-on-earlier-calls",
+                      "the join differs bit-wise from the same join made as the very first call of a fresh interpreter",
+                      {"op": "join", "A": cases[0]["A"], "B": cases[0]["B"], "args": cases[0]["args"]})
 
 
 # ------------------------------------------------------------------------------------------
@@ -660,7 +772,8 @@ def run(ctx):
                 "point sits at any index, attached to any atom, bond types Single/Double/Aromatic/Triple, charge −2…2, mult 1…3) in random poses "
                 "on a 1/8 Å grid; requested length ∈ {None, 0.75, 1, 1.5, 2.25, 3}; optimize_rotation on/off; charge override ∈ {None, 0, 1, −2}; "
                 "mult override ∈ {None, 0, 1, 2, 3}; attachment vectors in general position, exactly parallel, exactly antiparallel (also with A's vector exactly along each of ±x, ±y, ±z) and tilted off those by 1e-2…1e-7 rad; every call "
-                "made twice under different global numpy RNG states. combine: cores with 1–3 attachment points, attachment indices in ascending "
+                "made twice under different global numpy RNG states; every optimize_rotation join repeated after unrelated joins of a larger and a smaller "
+                "fragment, and compared bit-wise with the same join in fresh interpreters (reversed order; alone). combine: cores with 1–3 attachment points, attachment indices in ascending "
                 "order (as `core.attachment_points`) and in every other order (as with `-a` labels), through the real `_ml_assemble`; the whole command `molli_main` on core libraries of 2–3 cores with "
                 "DIFFERENT attachment layouts × 2–3 substituents, every -m mode (same, permutns, combns, combns_repl) × attachment points found by type, by one "
                 "shared -a label, by several -a labels in any order: every product of the output library vs the reference and the model. "
@@ -677,6 +790,7 @@ def run(ctx):
     variants = detect_variants(ml, cb)
     for k, v in variants.items():
         ctx.count(f"variant.{k}={v}")
+    FRESH.clear()
     B = Batch()
     # corpus first
     for r in corpus_cases():
@@ -713,6 +827,7 @@ def run(ctx):
         if len(B.items) > 400:
             B.run(ctx)
     B.run(ctx)
+    fresh_process_check(ctx, ml, 40 if q else 600)
     ncomb = 100 if q else 6000
     for i in range(ncomb):
         ctx.check_deadline()
